@@ -459,7 +459,7 @@ func (g *generator) next(w *world) (op, bool, error) {
 		box := boxNames[g.rng.Pick(len(boxNames))]
 		if kind == "EXAMINE" {
 			for _, b := range w.m.Boxes {
-				for _, e := range b.Entries {
+				for _, e := range b.Ents {
 					if e.Del && g.rng.Chance(0.5) {
 						box = b.Name
 					}
